@@ -274,9 +274,122 @@ def culprit(R, t):
     return best
 
 
+# ------------------------------------------------------------------ Tie B for MoSql.Sources (the list after FROM)
+JOIN_KINDS = ["join", "inner join", "left join", "left outer join", "right join", "right outer join", "full join", "full outer join", "cross join"]
+SRC_TOKEN = re.compile(r"\(|\)|,|(?P<j>%s)\b|ON p(?P<on>\d+) = q(?P=on)\b|USING u(?P<us>\d+)\b|(?P<n>[a-z]\w*(?: AS [a-z]\w*)?)" % "|".join(
+    k.upper().replace(" ", r"\ ") for k in sorted(JOIN_KINDS, key=len, reverse=True)))
+
+
+def gen_items(rng, depth, normal):
+    """-> (model items, real tree list); `normal`: only shapes the parser itself produces (plain sources before the first
+    join, a group starts with a plain source)"""
+    n = rng.choice([1, 1, 2, 2, 3, 4]) if not (depth == 0 and not normal and rng.random() < 0.1) else 0
+    items, tree, joined = [], [], False
+
+    def src():
+        if depth > 0 and rng.random() < 0.3:
+            mi, ti = gen_items(rng, depth - 1, normal)
+            if normal and len(ti) < 2:
+                return src()
+            return ["group", mi], ti
+        name = rng.choice("abcdefgh") + str(rng.randint(1, 9))
+        if rng.random() < 0.25:
+            al = rng.choice("xyz") + str(rng.randint(1, 9))
+            return ["tbl", "%s AS %s" % (name, al)], {"value": name, "name": al}
+        return ["tbl", name], name
+
+    for i in range(n):
+        plain = (i == 0) if normal else (rng.random() < 0.45)
+        if normal and i > 0 and not joined and rng.random() < 0.4:
+            plain = True
+        ms, ts = src()
+        if plain:
+            items.append(["plain", ms])
+            tree.append(ts)
+        else:
+            joined = True
+            kind = rng.choice(JOIN_KINDS)
+            c = rng.random()
+            k = rng.randint(1, 99)
+            node = {kind: ts}
+            if kind == "cross join" or c < 0.25:
+                cond = ["none"]
+            elif c < 0.75:
+                cond = ["on", k]
+                node["on"] = {"eq": ["p%d" % k, "q%d" % k]}
+            else:
+                cond = ["using", k]
+                node["using"] = "u%d" % k
+            items.append(["join", kind.upper(), ms, cond])
+            tree.append(node)
+    return items, tree
+
+
+def sources_correspondence(ctx, n):
+    """the model's token list against the text the real formatter writes after FROM, on generated lists of sources;
+    on parser-shaped lists also: the text parses back to the list"""
+    rep = ctx.rep
+    R = C.real()
+    cases = []
+    for i in range(n):
+        normal = i % 2 == 0
+        items, tree = gen_items(ctx.rng, ctx.rng.choice([0, 1, 2, 3]), normal)
+        if not tree:
+            continue
+        cases.append((normal, items, tree))
+    answers = ctx.driver.batch([{"op": "sources", "items": it} for _, it, _ in cases])
+    bad = 0
+    for (normal, items, tree), ans in zip(cases, answers):
+        if "error" in ans:
+            raise C.InfraError("driver: " + ans["error"])
+        rep.count("sources", "normal" if normal else "any")
+        rep.case("sources:" + json.dumps(items))
+        frm = tree[0] if len(tree) == 1 and not isinstance(tree[0], list) else tree
+        f = R.format_raw({"select": {"all_columns": {}}, "from": frm})
+        if f[0] != "ok" or not f[1].startswith("SELECT * FROM "):
+            real = {"$err": f[1][:120]}
+        else:
+            text = f[1][len("SELECT * FROM "):]
+            toks, pos, ok = [], 0, True
+            while pos < len(text):
+                if text[pos] == " ":
+                    pos += 1
+                    continue
+                m = SRC_TOKEN.match(text, pos)
+                if not m:
+                    ok = False
+                    break
+                if m.group("j"):
+                    toks.append("j:" + m.group("j"))
+                elif m.group("on"):
+                    toks.append("on:" + m.group("on"))
+                elif m.group("us"):
+                    toks.append("using:" + m.group("us"))
+                elif m.group("n"):
+                    toks.append("n:" + m.group("n"))
+                else:
+                    toks.append(m.group(0))
+                pos = m.end()
+            real = toks if ok else {"$untokenised": text[pos:pos + 40]}
+        if real != ans["tokens"] or not ans["separated"] or not ans["balanced"]:
+            bad += 1
+            if bad <= 5:
+                rep.tie_break("correspondence", "Sources.fmt vs Formatter.from_", {"items": items, "tree": frm, "real": real, "model": ans})
+            continue
+        if normal:
+            back = R.parse_raw(f[1])
+            if back[0] != "ok" or back[1].get("from") != frm:
+                rep.count("finding", "from:source-list-differs")
+                rep.finding("from:source-list-differs:generated", "format(%s) = %r parses back to %s" % (json.dumps(frm)[:200], f[1][:200], json.dumps(back[1].get("from"))[:200] if back[0] == "ok" else back[1]),
+                            {"sql": f[1], "dialect": "common", "tree": {"select": {"all_columns": {}}, "from": frm}})
+    rep.count("sources_correspondence_mismatches", None, bad)
+
+
 def run(ctx, scale=1):
     rep = ctx.rep
     R = C.real()
+    if ctx.driver:
+        sources_correspondence(ctx, (600 if ctx.quick else 8000) * scale)
     bad_edges = known_c04_edges()
     stmts = pool.statements(ctx, n_gen=(800 if ctx.quick else 12000) * scale)
     stmts += [{"sql": q, "dialect": "common", "origin": "prefix-battery"} for q in prefix_battery()]
